@@ -657,6 +657,10 @@ pub fn gen(prop: &str, rng: &mut Rng, quick: bool, st: &mut Stats) -> Option<Vec
             c.push(format!("chk_fault write sync - {}", spill_ops(rng, 4300, Compression::None)));
             c.push(format!("chk_fault write async - {}", spill_ops(rng, 9000, Compression::GZip)));
             let big = valid_entries(rng, 9000, false, false, st);
+            // directories of more than 2^16 entries on their own
+            c.push("chk_fault dir_w sync - zstd R11800".to_string());
+            c.push("chk_fault dir_w async - gzip R11170".to_string());
+            st.bump("directory_writer_over_65536_entries");
             c.push(format!("chk_fault wdirs sync - gzip 50 {}", entries_tok(&big)));
             c.push(format!("chk_fault wdirs async - none - {}", entries_tok(&big)));
         }
@@ -797,8 +801,11 @@ pub fn gen(prop: &str, rng: &mut Rng, quick: bool, st: &mut Stats) -> Option<Vec
             let sizes: Vec<usize> = if quick { vec![0, 1, 2, 100, 5000, 70_000, 1_200_000] } else { vec![0, 1, 2, 17, 100, 5000, 70_000, 1_200_000, 6_000_000] };
             for comp in ALL_COMP {
                 for (i, &s) in sizes.iter().enumerate() {
-                    for kind in 0..5u64 {
+                    for kind in 0..9u64 {
                         if (kind <= 1) && i > 1 {
+                            continue;
+                        }
+                        if kind >= 5 && (s > 70_000 || s == 2) {
                             continue;
                         }
                         if s > 1_000_000 && kind != 2 && kind != 3 {
